@@ -43,9 +43,11 @@ def do_call(B, it, c):
     if m == 'pop':
         return it.pop(to_entry(B, c['a']))
     if m == 'save':
-        return it.save('s', to_entry(B, c['a']))
+        e = to_entry(B, c['a'])       # named as the Metamath translator names its saves: str(term) (a pattern and its proof share a name)
+        return it.save(str(e.conclusion if isinstance(e, Proved) else e), e)
     if m == 'load':
-        return it.load('l', to_entry(B, c['a']))
+        e = to_entry(B, c['a'])
+        return it.load(str(e.conclusion if isinstance(e, Proved) else e), e)
     if m == 'publish_axiom':
         return it.publish_axiom(T(c['a']))
     if m == 'publish_claim':
